@@ -179,6 +179,40 @@ ONE={
 "C15-B8":("unsync `contains_key` shares a prologue with `get` that increments the sketch","full cache; contains_key on an absent key; admission decided by popularity"),
 "C17-A8":("unsync `get` checks idle expiry with `time_to_live` (as C06-A)","> 100 idle-expired entries; get of a leftover"),
 "C17-B8":("sync sketch threshold `(max_cap + 1) / 2`","max_capacity == u64::MAX"),
+"C01-A9":("sync `is_expired_entry_wo` no longer compares last_modified with valid_after (\"the access-time check covers it\")","get hit queued at the reading invalidate_all stores (or racing it), then a sync applies the hit"),
+"C01-B9":("unsync `insert`: oversize rejection moved up as an early return (as C01-B2)","weigher; update of a cached key with weight > max_capacity keeps the stale value"),
+"C02-A9":("sync `invalidate` returns early when `contains_key` is false (as C02-A5)","tti; a queued hit revives an entry that looked idle-expired when it was invalidated"),
+"C02-B9":("sync `do_insert_with_hash` returns None for an oversized value, update case forgotten (as C02-B)","weigher; key present; insert heavier than max_capacity keeps the stale value"),
+"C03-A9":("sync `handle_admit` drops `set_policy_weight` (as C04-B)","new key inserted twice with growing weight before maintenance, removed later, then a refill"),
+"C03-B9":("sync valid_after checks factored into a helper that compares `ts <= va`","an insert at the very clock reading of an earlier invalidate_all"),
+"C04-A9":("unsync, two cooperating edits: oversize check dropped + weight clause dropped in `admit` (as C04-A3)","oversized newcomer looked up more often than all residents together"),
+"C04-B9":("sync `handle_admit` adds the entry's stored weight instead of the op's weight","new key inserted twice with growing weight before maintenance"),
+"C05-A9":("unsync, two cooperating edits: get/contains_key drop the per-entry ttl test (purge drains all expired nodes) + update no longer moves the write-order node to the back","X inserted before Y, X updated later, lookup of Y between Y's deadline and that of X's update"),
+"C05-B9":("sync `get`/`contains_key` skip the expiry test for entries with an unapplied write","ttl; insert or update, no maintenance until the deadline, then a lookup"),
+"C06-A9":("sync `get` stamps the queued hit with a second, later clock reading (as C06-A2)","the clock must advance inside one get"),
+"C06-B9":("unsync `contains_key` answers from the raw map after the purge passes","tti; more than 100 entries idle-expired at once; contains_key beyond the first batch"),
+"C07-A9":("sync `remove_expired_ao`: `remove(key)` instead of `remove_if(expired)` (as C07-A2)","maintenance between node check and map removal while another thread re-inserts the key after invalidate_all"),
+"C07-B9":("unsync `Deques::clear` forgets the write-order deque","ttl; insert, invalidate_all, re-insert, operation between the old and the new deadline"),
+"C08-A9":("sync, two cooperating edits: `apply_reads` loses its is_admitted guard + `unlink_ao_from_deque` reads instead of takes the node pointer (as C08-B2)","queued hit whose entry is evicted by the maintenance run inside that very get"),
+"C08-B9":("unsync `get` removes an expired entry from the map without unlinking its deque nodes","ttl only; > 100 entries expired at once; get beyond the first batch; later an admission walks onto the orphan node (panic)"),
+"C09-A9":("two cooperating edits: write queue sized `max_capacity.clamp(64, 384)` + `should_apply` uses `>`","max_capacity <= 64, beyond the periodic window, 65 writes without sync (livelock in a single thread)"),
+"C09-B9":("sync `get`: expired-entry arm keeps the shard guard across `record_read_op` (as C09-A)","get of an expired, unpurged key that itself triggers maintenance (self-deadlock)"),
+"C10-A9":("sync, two cooperating edits: Upsert carries the weigher's weight of the replaced value + `handle_upsert` subtracts it","admitted key updated twice with different weights, both updates still queued when maintenance runs"),
+"C10-B9":("sync `invalidate` queues no Remove op for an entry that is already expired","expired (or hidden) unpurged admitted entry, then invalidate(key) before the next maintenance"),
+"C11-A9":("sync `invalidate` queues no Remove op for an entry with an unapplied write","insert, sync, update, invalidate before the update is applied"),
+"C11-B9":("sync oversize rejection moved ahead of the update branch (as C10-B)","update of an admitted key to weight > max_capacity"),
+"C12-A9":("sync, two cooperating edits: a hit stamps last_accessed at once when tti is set + `apply_reads` moves the node only inside the `la < timestamp` guard","tti + max_capacity; get of a non-MRU key, then a capacity eviction"),
+"C12-B9":("sync `admit` passes over victims with an unapplied write","full cache; insert(popular newcomer) and an update of the LRU key queued together"),
+"C13-A9":("sync `admit` adds a node's popularity before checking that the map still owns the node","newcomer queued before the invalidation of the LRU key; est(a)+est(b) >= est(newcomer) > est(b)"),
+"C13-B9":("unsync `admit`: final condition shortened to `candidate.freq > victims.freq` (as C13-A)","weigher; popular newcomer heavier than all residents together"),
+"C14-A9":("unsync, two cooperating edits: `get` records only while the enabled flag is set + `invalidate_all` clears the flag","sketch enabled once, invalidate_all, gets while the cache is below half full"),
+"C14-B9":("sync `apply_reads` skips (and does not record) a hit older than the entry's last_accessed (as C14-B4)","get hit queued, same key updated at a later reading before maintenance"),
+"C15-A9":("sync `contains_key` invalidates the key when it reports false and expiry is configured","tti; queued hit; contains_key between the stale idle deadline and the sync that applies the hit (or racing an insert)"),
+"C15-B9":("unsync `contains_key` removes a found-but-expired entry on the spot, without giving back its weight","> 100 entries expired at once; contains_key beyond the first batch; later a refill to capacity"),
+"C16-A9":("sync, two cooperating edits: ttl block ahead of the valid_after block in `is_expired_entry_wo` + the iterator's idle check only when tti is set","ttl only; invalidate_all; iterate before the purge"),
+"C16-B9":("sync update re-stamps the shared entry info only if it is not already dirty","ttl/tti; two writes of a key without maintenance in between; iterate between the first and the second write's deadline"),
+"C17-A9":("sync `invalidate` queues no Remove op for a not yet admitted entry (as C10-B7)","invalidate racing `handle_upsert` of the same key: real threads"),
+"C17-B9":("unsync `initial_capacity` pre-sizes the popularity sketch","initial_capacity in the same power-of-two bracket as max_capacity; get before half full, fill, insert"),
 "C17-B4":("unsync `with_everything` drops zero durations","time_to_live / time_to_idle of exactly 0"),
 }
 rows=[]
@@ -255,8 +289,8 @@ tree; none is inside the quantifier of C08 and all are recorded in §7
 Fourth round (ids ending in `4`, same brief as the third, for C01, C06, C14, C15,
 C17): all caught; `C14-A4` only after insert-bursts were added to the C14
 profile (the fault needs more than 128 entries), `C01-A4` by C07 (it needs an
-interleaving). `C14-B4` is, like `C14-B2`, an *unrecorded* lookup, which the
-statement allows ("at most once"), so the silence of C14 is right.
+interleaving). `C14-B4` is, like `C14-B2`, an *unrecorded* lookup; C14 was
+silent on both until the ninth round (see there).
 
 Fifth round (ids ending in `5`, same brief as the third, for the twelve
 properties that had had three rounds). Caught at once: `C02-A5`, `C03-B5`,
@@ -313,12 +347,35 @@ all 18 caught at once, most of them variants of earlier changes (`C08-A8` is
 reported by the committed regression replay of R3, `C17-A8` by C06, `C04-A8` by
 C10, `C02-A8` by C01/C07).
 
+Ninth round (ids ending in `9`; all 17 properties; one author per property, asked
+for one change that needs an interleaving or a particular placement of
+maintenance runs and one that needs an unusual input, or for two cooperating
+edits and one change that depends on a still-queued or expired-but-unpurged
+entry). 31 of 34 caught at once. Strengthened after misses: `C13-A9` (a victim
+walk that meets an invalidated key whose removal is still queued: the lock-step
+model, which had to be taught to follow the concurrent cache one maintenance run
+at a time for this, decides the newcomer under both readings of "LRU prefix of
+residents" and demands what they agree on; §9), `C15-B9` and `C17-A9` are
+reported by C10 (and C11), not by the property their authors aimed at: the
+counters drift, while `contains_key` / `policy()` and the differential histories
+agree. `C14-B9` (and with it the older `C14-B2`, `C14-B4`) led to a new clause of
+C14, the *lower bound*: from one moment with no read queued to the next, without
+an aging step and without a lookup dropped by a full read queue, the estimate of
+a key is at least `min(15, before + number of gets of the key)`. Earlier rounds
+had read "each at most once" as permission to leave any lookup unrecorded, which
+makes "never underestimates" empty; the only lookups the concurrent cache may
+drop are those that find its read queue full (observed through the queue
+length), and the single-threaded cache drops none. `C06-A9` repeats `C06-A2`
+(see below). Burst keys are now looked up in the C03, C04, C10 and C11 profiles
+too (found-but-expired arms beyond one purge batch, with the counter, drop and
+capacity oracles watching).
+
 Not caught (or caught only elsewhere), with the reason:
 * `C13-A5` — needs five invalidations still queued behind the newcomer's insert.
-  C13 quantifies over the concurrent cache with maintenance after every
-  operation, where no stale deque node exists; and with six stale nodes the
-  unchanged code itself gives up and rejects, so there is no sharp oracle for
-  "how many stale nodes may be skipped".
+  How many invalidated keys a victim walk passes over before it gives up is a
+  tuning constant (with six the unchanged code itself rejects the newcomer), so
+  the lock-step model ends its prediction when a walk meets more than three in
+  a row instead of fixing that number.
 * `C13-B5` — only real threads reach it (a victim's shard is write-locked during
   admission); outside C13's quantifier, and admission decisions cannot be
   predicted under uncontrolled threads.
@@ -340,7 +397,7 @@ Not caught (or caught only elsewhere), with the reason:
   flush point for ever; every finite program still terminates, and the
   author's own demonstration did not fail when re-run here. Bounded liveness
   cannot see it (§7).
-* `C06-A2` — the change stamps a hit with a clock reading taken a few
+* `C06-A2`, `C06-A9` — the change stamps a hit with a clock reading taken a few
   statements later inside the same `get`. At the granularity of API calls "the
   clock reading of the get" is any reading between the call's start and end,
   so no history oracle can distinguish the two; not a violation one can state
@@ -353,9 +410,8 @@ Not caught (or caught only elsewhere), with the reason:
   residents.
 * `C13-B2` — the patch no longer applies after the R3 repair rewrote the lines
   it touches (not run).
-* `C14-B2` — the statement only promises that a get is recorded *at most* once
-  (the concurrent cache may drop reads); an unrecorded miss does not
-  contradict it, so the check rightly stays silent.
+* `C14-B2`, `C14-B4` — silent until the ninth round, now caught by the lower-bound
+  clause of C14 (a lookup that is not recorded although nothing was dropped).
 * `C15-B2` — only manifests when an extra `contains_key` runs while the unsync
   cache is over capacity, which is exactly the trigger state of the open known
   finding U4 and is excluded by construction.
